@@ -38,6 +38,7 @@ type Frame struct {
 	varRefs  map[string][]varRef
 	isInit   bool
 	anchorOrd   map[string]int
+	afterOrd    map[string]int
 	usedAnchors map[string]bool
 }
 
